@@ -3,6 +3,8 @@
 package suppapitnarm
 
 import (
+	"reflect"
+
 	"github.com/LindsayBradford/crem/internal/pkg/annealing/cooling"
 	"github.com/LindsayBradford/crem/internal/pkg/model"
 	"github.com/LindsayBradford/crem/internal/pkg/model/archive"
@@ -14,9 +16,24 @@ func (ke *Explorer) VerifArchive() *archive.NonDominanceModelArchive { return &k
 func (ke *Explorer) VerifPotentialModel() model.Model                { return ke.potentialModel }
 func (ke *Explorer) VerifCoolant() cooling.TemperatureCoolant        { return ke.coolant }
 func (ke *Explorer) VerifCountdown() uint64                          { return ke.iterationsUntilReturnToBase }
-func (ke *Explorer) VerifReturnToBaseStep() float64                  { return ke.returnToBaseStep }
+func (ke *Explorer) VerifReturnToBaseStep() float64                  { return verifNumber(ke.returnToBaseStep) }
 func (ke *Explorer) VerifLastReturnedToBase() uint64                 { return ke.lastReturnedToBase }
 func (ke *Explorer) VerifCurrentIteration() uint64                   { return ke.currentIteration }
 func (ke *Explorer) VerifArchiveResult() archive.StorageResult       { return ke.archiveStorageResult }
 func (ke *Explorer) VerifChangeAccepted() bool                       { return ke.changeAccepted }
 func (ke *Explorer) VerifChangeIsDesirable() bool                    { return ke.changeIsDesirable }
+
+// verifNumber reads a numeric field whatever its numeric type is (a change of the field's type is then judged by
+// what the explorer does, not by whether this accessor still compiles)
+func verifNumber(v interface{}) float64 {
+	rv := reflect.ValueOf(v)
+	switch rv.Kind() {
+	case reflect.Float32, reflect.Float64:
+		return rv.Float()
+	case reflect.Int, reflect.Int8, reflect.Int16, reflect.Int32, reflect.Int64:
+		return float64(rv.Int())
+	case reflect.Uint, reflect.Uint8, reflect.Uint16, reflect.Uint32, reflect.Uint64:
+		return float64(rv.Uint())
+	}
+	panic("verif accessor: field is not numeric")
+}
